@@ -122,6 +122,11 @@ pub struct ThreadSpec {
     /// runs nor takes signals (and so does not stop) before
     #[serde(default)]
     pub blocked_until_ns: u64,
+    /// the thread executes 32-bit code (code segment 0x23: a 32-bit program, or a 64-bit program that
+    /// jumped into the compatibility segment): PTRACE_GETREGSET hands out the 32-bit register layouts
+    /// (68 / 108 bytes) and says so in iov_len; PTRACE_GETREGS / GETFPREGS still give the native ones
+    #[serde(default)]
+    pub compat32: bool,
 }
 
 #[derive(Serialize, Deserialize, Clone, Debug, PartialEq)]
